@@ -146,3 +146,46 @@ Proof.
   - intros w Hin. vm_compute in Hin. destruct Hin as [E|[]]. discriminate.
   - intros w ev E. vm_compute in E. destruct w as [|[|[|w]]]; discriminate.
 Qed.
+
+(* ------------------------------------------------------------------ *)
+(* The serial path -- where the property does hold -- is taken exactly when the worker count
+   that reaches a stage is 1, and that count is decided by par_util.resolve_parallelism
+   (Model/ParUtil.v; [fork], [slurm], [cpus] stand for the start method, SLURM_NPROCS and
+   os.cpu_count()).  A request for serial processing is honoured in every environment, an
+   explicit count reaches the stages unchanged, and the result is always a positive count. *)
+From Coq Require Import ZArith.
+From Toasty Require Import Model.ParUtil Proofs.ParUtilP.
+
+Theorem serial_request_is_honoured :
+  forall (fork : bool) (slurm : option (option Z)) (cpus n : Z),
+  (n <= 1)%Z ->
+  resolve_parallelism fork slurm cpus (Some n) = 1%Z /\ runs_serially fork slurm cpus (Some n) = true.
+Proof. exact resolve_serial_request. Qed.
+Print Assumptions serial_request_is_honoured.
+
+Theorem explicit_request_is_honoured :
+  forall (fork : bool) (slurm : option (option Z)) (cpus n : Z),
+  (1 <= n)%Z -> resolve_parallelism fork slurm cpus (Some n) = if fork then n else 1%Z.
+Proof. exact resolve_explicit. Qed.
+Print Assumptions explicit_request_is_honoured.
+
+Theorem resolved_count_is_positive :
+  forall fork slurm cpus req, (1 <= resolve_parallelism fork slurm cpus req)%Z.
+Proof. exact resolve_positive. Qed.
+Print Assumptions resolved_count_is_positive.
+
+Theorem unspecified_count_follows_the_environment :
+  (forall slurm cpus req, resolve_parallelism false slurm cpus req = 1%Z) /\
+  (forall cpus n, resolve_parallelism true (Some (Some n)) cpus None = Z.max 1 n) /\
+  (forall slurm cpus, (slurm = None \/ slurm = Some None) ->
+                      resolve_parallelism true slurm cpus None = Z.max 1 cpus).
+Proof. split; [exact resolve_no_fork|split; [exact resolve_default_slurm|exact resolve_default_cpus]]. Qed.
+Print Assumptions unspecified_count_follows_the_environment.
+
+Example resolve_runs :
+  resolve_parallelism true (Some (Some 4%Z)) 16 (Some 1%Z) = 1%Z /\
+  resolve_parallelism true (Some (Some 4%Z)) 16 None = 4%Z /\
+  resolve_parallelism true (Some None) 16 None = 16%Z /\
+  resolve_parallelism false (Some (Some 4%Z)) 16 (Some 3%Z) = 1%Z /\
+  runs_serially true None 16 (Some 0%Z) = true.
+Proof. vm_compute. repeat split. Qed.
